@@ -357,10 +357,23 @@ func C20(r *core.Run) {
 			if err := os.Link(masters[c.Running], exe); err != nil {
 				panic(err)
 			}
+			// a file an interrupted earlier update may have left behind: never a substitute for the executable
+			os.WriteFile(filepath.Join(sb, "bin", ".crs-toolchain.old"), []byte("stale binary of an interrupted update\n"), 0o755)
+			// every third case the tool is started through a symbolic link in another directory: the running
+			// executable is the link's target, and the link stays a link
+			start := exe
+			viaLink := i%3 == 1
+			if viaLink {
+				os.MkdirAll(filepath.Join(sb, "path"), 0o755)
+				start = filepath.Join(sb, "path", "crs-toolchain")
+				if err := os.Symlink("../bin/crs-toolchain", start); err != nil {
+					panic(err)
+				}
+			}
 			cat := filepath.Join(sb, "catalogue")
 			c20WriteCatalogue(cat, c.Rels)
 			before := core.Snapshot(filepath.Join(sb, "bin"))
-			res := core.RunCLI(exe, sb, "", []string{"CRS_VERIF_RELEASES=" + cat, "CRS_VERIF_FAULTS=" + c.Faults, "HOME=" + sb, "TMPDIR=" + sb}, "self-update")
+			res := core.RunCLI(start, sb, "", []string{"CRS_VERIF_RELEASES=" + cat, "CRS_VERIF_FAULTS=" + c.Faults, "HOME=" + sb, "TMPDIR=" + sb}, "self-update")
 			o.Runs++
 			after, _ := os.ReadFile(exe)
 			reqLog, _ := os.ReadFile(filepath.Join(cat, "requests.log"))
@@ -384,6 +397,11 @@ func C20(r *core.Run) {
 			o.Situations[situation]++
 			bad := func(clause, why string) {
 				o.Bad = append(o.Bad, c20Res{c, clause, why, situation, res.Exit, tailStr(res.Stderr, 400), reqs})
+			}
+			if viaLink {
+				if fi, err := os.Lstat(start); err != nil || fi.Mode()&os.ModeSymlink == 0 {
+					bad("installs-only-eligible", "the tool was started through a symbolic link and the link itself was replaced")
+				}
 			}
 			untouched := core.Hash(string(after)) == masterHash[c.Running]
 			if untouched {
